@@ -1,6 +1,6 @@
 (* C02 - a failed instruction leaves the machine state untouched and is skipped. *)
 From Coq Require Import List ZArith NArith Floats Bool.
-From UEC Require Import Base.I64 Push.Stack Push.Syntax Push.Spec Push.SpecProps Push.Run Push.RunProps Push.Impl Push.Refine.
+From UEC Require Import Base.Iter Base.I64 Push.Stack Push.Syntax Push.Spec Push.SpecProps Push.Run Push.RunProps Push.Impl Push.Refine.
 Import ListNotations.
 
 (* the state carried by ANY error - recoverable or fatal - of ANY program element
@@ -34,6 +34,15 @@ Theorem C02_skip : forall prec s n p s1 s2 e,
   step prec (Running s n) = step prec (Running (set_exec (with_elems (PI Noop :: elems (exec s1)) (exec s1)) s1) n).
 Proof. exact step_skips. Qed.
 Print Assumptions C02_skip.
+
+(* ... and for every number of further steps: the run after the failed instruction is the run a no-op would have had *)
+Theorem C02_skip_carries_on : forall prec s n p s1 s2 e k,
+  pop_exec s = Some (p, s1) -> Spec.perform_prog prec p s1 = Rec s2 e ->
+  Iter.iter_nat halted (step prec) (S k) (Running s n) =
+    Iter.iter_nat halted (step prec) (S k) (Running (set_exec (with_elems (PI Noop :: elems (exec s1)) (exec s1)) s1) n) /\
+  Iter.iter_nat halted (step prec) (S k) (Running s n) = Iter.iter_nat halted (step prec) k (Running s1 (n + 1)).
+Proof. exact skips_carry_on. Qed.
+Print Assumptions C02_skip_carries_on.
 
 (* non-vacuity: each fault class on a state with data in the other stacks and a non-empty output *)
 Example C02_examples :
